@@ -36,6 +36,7 @@ def worker_env(scratch, hashseed=None):
     env['OPENBLAS_NUM_THREADS'] = '1'
     env['MKL_NUM_THREADS'] = '1'
     env['TZ'] = 'UTC'
+    env['PYTHONUTF8'] = '1'        # text files are UTF-8 whatever the caller's locale is
     env['MPLCONFIGDIR'] = os.path.join(scratch, 'mpl')
     env['XDG_CACHE_HOME'] = os.path.join(scratch, 'cache')
     env['XDG_CONFIG_HOME'] = os.path.join(scratch, 'config')
